@@ -56,7 +56,24 @@ struct Plan {
     delay_pm: u64,
     /// the queue reports to a (local) metrics recorder
     recorder: bool,
+    /// the drop under test happens while a panic unwinds through the handle's owner
+    unwinding: bool,
+    /// a flush future obtained before the drop is kept, un-polled, until the end of the history
+    retain_flush: bool,
+    /// forget path with a gate: the last queue handle is dropped BEFORE the writer is released
+    drop_before_release: bool,
     seed: u64,
+}
+
+/// payload of the panics this harness raises on purpose (silenced in the panic hook)
+struct IntentionalPanic;
+
+fn drop_by_unwinding<T>(x: T) {
+    let r = std::panic::catch_unwind(std::panic::AssertUnwindSafe(move || {
+        let _held = x;
+        std::panic::panic_any(IntentionalPanic);
+    }));
+    assert!(r.is_err());
 }
 
 #[derive(Clone)]
@@ -252,21 +269,22 @@ fn inner(plan: &Plan, phase: &AtomicU64) -> Outcome {
         builder = builder.metrics_recorder_local::<dyn metrics::Recorder, _>(checks::recorder::CountingRecorder(counts));
     }
     // `handle_drop` performs the drop under test
+    let unwinding = plan.unwinding;
     let (q, handle_drop): (Q, Box<dyn FnOnce(bool) + Send>) = match plan.kind {
         Kind::Typed => {
             let (q, h) = builder.build::<IdEntry>(sh.stream());
-            (Q::Typed(q), Box::new(move |forget| if forget { h.forget() } else { h.shut_down() }))
+            (Q::Typed(q), Box::new(move |forget| if forget { h.forget() } else if unwinding { drop_by_unwinding(h) } else { h.shut_down() }))
         }
         Kind::Boxed => {
             let (q, h) = builder.build_boxed(sh.stream());
-            (Q::Boxed(q), Box::new(move |forget| if forget { h.forget() } else { drop(h) }))
+            (Q::Boxed(q), Box::new(move |forget| if forget { h.forget() } else if unwinding { drop_by_unwinding(h) } else { drop(h) }))
         }
         Kind::Global => {
             let (q, h) = builder.build_boxed(sh.stream());
             let lane = plan.lane;
             let ah = on_global!(lane, G => <G as AttachGlobalEntrySink>::attach((q, h)));
             let q = global_sink(lane).expect("attached");
-            (Q::Boxed(q), Box::new(move |_forget| drop(ah)))
+            (Q::Boxed(q), Box::new(move |_forget| if unwinding { drop_by_unwinding(ah) } else { drop(ah) }))
         }
     };
     phase.store(1, Ordering::SeqCst);
@@ -370,6 +388,8 @@ fn inner(plan: &Plan, phase: &AtomicU64) -> Outcome {
         }
     }
     let forgot = plan.forget && plan.kind != Kind::Global;
+    // (served or not, polled or not: a flush future in somebody's hands must not keep anything alive)
+    let retained = if plan.retain_flush { Some(q.flush_async()) } else { None };
     let mut o = Outcome {
         calls: vec![], drop_start: 0, drop_end: 0, log_at_drop_end: vec![], final_log: vec![],
         dropped_at: 0, thread_exit_at: 0, forgot, closed_observed: false, flush_after_shutdown_ready: true,
@@ -387,11 +407,20 @@ fn inner(plan: &Plan, phase: &AtomicU64) -> Outcome {
         for t in racer_threads {
             calls.extend(t.join().expect("racer panicked"));
         }
-        sh.open_all();
+        if !plan.drop_before_release {
+            sh.open_all();
+        }
         phase.store(3, Ordering::SeqCst);
         o.drop_start = ticket();
         drop(q); // last queue handle
         o.drop_end = ticket();
+        if plan.drop_before_release {
+            // the writer is still held inside next() / flush(): it finds the last handle gone when it comes back
+            if !is_miri() {
+                std::thread::sleep(Duration::from_micros(200));
+            }
+            sh.open_all();
+        }
         o.closed_observed = progress_wait(|| sh.is_dropped() && sh.thread_exited(), default_stall());
     } else {
         // release the gate shortly after the drop has begun (from another thread)
@@ -446,6 +475,7 @@ fn inner(plan: &Plan, phase: &AtomicU64) -> Outcome {
         }
         drop(q);
     }
+    drop(retained);
     o.final_log = sh.log();
     o.dropped_at = sh.dropped_at.load(Ordering::SeqCst);
     o.thread_exit_at = sh.thread_exit_at.load(Ordering::SeqCst);
@@ -476,6 +506,9 @@ fn gen_plan(rng: &mut Rng, lane: u64, thorough: bool) -> Plan {
         after: rng.below(6) as u32,
         delay_pm: *rng.pick(&[0u64, 0, 300]),
         recorder: rng.below(3) == 0,
+        unwinding: rng.below(5) == 0,
+        retain_flush: rng.below(4) == 0,
+        drop_before_release: rng.bool(),
         seed: rng.next_u64(),
     }
 }
@@ -634,6 +667,9 @@ fn tiny_main(args: &Args, rep: &Report) {
         after: 1,
         delay_pm: 200,
         recorder: v % 5 == 2,
+        unwinding: v % 3 == 1,
+        retain_flush: v % 2 == 1,
+        drop_before_release: v % 4 >= 2,
         seed: args.seed + v,
     };
     rep.eval();
@@ -647,6 +683,12 @@ fn tiny_main(args: &Args, rep: &Report) {
 fn main() {
     let args = Args::parse();
     let rep = Report::new("C05", &args);
+    let default_hook = std::panic::take_hook();
+    std::panic::set_hook(Box::new(move |info| {
+        if !info.payload().is::<IntentionalPanic>() {
+            default_hook(info);
+        }
+    }));
     if is_miri() || args.get_u64("tiny", 0) == 1 {
         tiny_main(&args, &rep);
     } else {
